@@ -1,5 +1,5 @@
 (* C17 -- property theorems only.  Proofs live in C17/Proofs.v. *)
-From Coq Require Import NArith Bool.
+From Coq Require Import NArith Bool ZArith.
 Local Open Scope bool_scope.
 From DV Require Import Base.Outcome C17.Gen C17.Model C17.Proofs.
 Local Open Scope N_scope.
@@ -78,3 +78,8 @@ Theorem C17_diff_range_accepts_bumped : forall s n, u32 s -> 1 <= n <= 214748364
   diff_range_rejected s ((s + n) mod M32) = false.
 Proof. exact diff_range_accepts_bumped. Qed.
 Print Assumptions C17_diff_range_accepts_bumped.
+
+Theorem C17_date_later_is_greater : forall (secs k : Z), (1 <= k <= 2147483647)%Z ->
+  serial_partial_cmp (timestamp_of_secs secs) (timestamp_of_secs (secs + k)%Z) = Ok (Some Lt).
+Proof. exact date_later_is_greater. Qed.
+Print Assumptions C17_date_later_is_greater.
